@@ -70,6 +70,7 @@ func vNewWorld(mode abciAPI.ContextMode, withPool bool) *vWorld {
 	w := &vWorld{mode: mode, withPool: withPool}
 	w.appState = abciAPI.NewMockApplicationState(&abciAPI.MockApplicationStateConfig{
 		CurrentEpoch: vEpoch,
+		MinGasPrice:  vQ("localMinGasPrice"),
 	})
 	w.ctx = w.appState.NewContext(abciAPI.ContextInitChain)
 	w.state = stakingState.NewMutableState(w.ctx.State())
